@@ -1544,53 +1544,67 @@ def run(ctx):
 
 def real_files(ctx):
     """the same messages into real binary / text files: io objects and files on disk"""
-    from eliot import FileDestination
     rng = ctx.rng("realfiles")
     for gi in range(ctx.budget(12, 200)):
         pname, prof = pick_profile(rng)
         prof = dict(prof, bad=0.0)
         ext = prof["ext"]
         msgs = [g_message(rng, prof) for _ in range(rng.randint(1, 8))]
-        case = {"kind": "realfile", "msgs": msgs, "ext": ext}
-        objs = [build(m) for m in msgs]
-        ctx.case(case, nontrivial=True, tags=["real-file-group"], sample=False)
-        with tempfile.TemporaryDirectory(prefix="c10-") as d:
-            fb = open(os.path.join(d, "b.log"), "ab")
-            ft = open(os.path.join(d, "t.log"), "a", encoding="utf-8", newline="")
-            bio, sio = io.BytesIO(), io.StringIO()
-            seen = []
-            try:
-                for f in (fb, ft, bio, sio):
-                    dest = FileDestination(file=f, json_default=default_for(ext))
-                    for o in objs:
-                        dest(o)
-                        if f is fb:
-                            # visible to a reader between calls, without closing: flush happened
-                            seen.append(open(os.path.join(d, "b.log"), "rb").read())
-            except Exception as e:  # noqa
-                ctx.violation("FileDestination on a real file raised %s for a message of the documented domain" % type(e).__name__, case)
-                continue
-            finally:
-                fb.close()
-                ft.close()
-            disk_b = open(os.path.join(d, "b.log"), "rb").read()
-            disk_t = open(os.path.join(d, "t.log"), "rb").read()
-        if not (disk_b == disk_t == bio.getvalue() == sio.getvalue().encode("utf-8")):
-            ctx.violation("binary-mode and text-mode files received different content", case)
-            continue
-        lines = disk_b.split(b"\n")
-        if lines[-1] != b"" or len(lines) != len(objs) + 1:
-            ctx.violation("%d messages gave %d newline-terminated lines" % (len(objs), len(lines) - 1), case)
-            continue
-        for i, (o, l) in enumerate(zip(objs, lines)):
-            why = check_line(l + b"\n", False, o, ext)
-            if why:
-                report_unfaithful(ctx, "real binary file: %s" % why, msgs[i], ext, dict(case, only=i))
+        # every way an application opens its log: append / write / update / exclusive modes (`io.BufferedWriter`,
+        # `io.BufferedRandom`, `io.TextIOWrapper` over either), default and explicit buffer sizes
+        case = {"kind": "realfile", "msgs": msgs, "ext": ext,
+                "modes": [rng.choice(["ab", "a+b", "w+b", "wb", "ab", "xb", "x+b"]), rng.choice(["a", "a+", "w", "w+", "a", "x"])],
+                "buffering": None if rng.random() < 0.6 else rng.choice([16, 4096, 1 << 20])}
+        ctx.case(case, nontrivial=True, tags=["real-file-group", "real-file-mode:" + case["modes"][0], "real-file-mode:" + case["modes"][1]], sample=False)
+        real_file_case(ctx, case)
+
+
+def real_file_case(ctx, case):
+    from eliot import FileDestination
+    msgs, ext = case["msgs"], case["ext"]
+    bmode, tmode = case.get("modes") or ["ab", "a"]
+    objs = [build(m) for m in msgs]
+    with tempfile.TemporaryDirectory(prefix="c10-") as d:
+        fb = open(os.path.join(d, "b.log"), bmode, **({"buffering": case["buffering"]} if case.get("buffering") else {}))
+        ft = open(os.path.join(d, "t.log"), tmode, encoding="utf-8", newline="")
+        bio, sio = io.BytesIO(), io.StringIO()
+        seen, seen_t = [], []
+        try:
+            for f in (fb, ft, bio, sio):
+                dest = FileDestination(file=f, json_default=default_for(ext))
+                for o in objs:
+                    dest(o)
+                    # visible to a reader between calls, without closing: flush happened
+                    if f is fb:
+                        seen.append(open(os.path.join(d, "b.log"), "rb").read())
+                    if f is ft:
+                        seen_t.append(open(os.path.join(d, "t.log"), "rb").read())
+        except Exception as e:  # noqa
+            ctx.violation("FileDestination on a real file raised %s for a message of the documented domain" % type(e).__name__, case)
+            return
+        finally:
+            fb.close()
+            ft.close()
+        disk_b = open(os.path.join(d, "b.log"), "rb").read()
+        disk_t = open(os.path.join(d, "t.log"), "rb").read()
+    if not (disk_b == disk_t == bio.getvalue() == sio.getvalue().encode("utf-8")):
+        ctx.violation("binary-mode and text-mode files received different content", case)
+        return
+    lines = disk_b.split(b"\n")
+    if lines[-1] != b"" or len(lines) != len(objs) + 1:
+        ctx.violation("%d messages gave %d newline-terminated lines" % (len(objs), len(lines) - 1), case)
+        return
+    for i, (o, l) in enumerate(zip(objs, lines)):
+        why = check_line(l + b"\n", False, o, ext)
+        if why:
+            report_unfaithful(ctx, "real binary file: %s" % why, msgs[i], ext, dict(case, only=i))
+    for which, sn in (("binary", seen), ("text", seen_t)):
         acc = b""
-        for i, s in enumerate(seen):
+        for i, s in enumerate(sn):
             acc += lines[i] + b"\n"
             if s != acc:
-                ctx.violation("after logging call %d returned a reader of the file saw something other than the %d complete lines" % (i, i + 1), case)
+                ctx.violation("after logging call %d returned a reader of the %s file (opened %r) saw something other than the %d complete lines"
+                              % (i, which, (bmode, tmode)[which == "text"], i + 1), dict(case, flush="not-visible"))
                 break
 
 
@@ -1623,9 +1637,12 @@ def replay(ctx, obj):
         case = {"kind": "file", "msgs": msgs, "ext": ext}
         kind = "file"
     if kind in ("file", "realfile", "fanout"):
-        base = {k: v for k, v in case.items() if k not in ("only", "mode", "dest")}
+        base = {k: v for k, v in case.items() if k not in ("only", "mode", "dest", "modes", "buffering", "flush")}
         if kind == "realfile":
             base["kind"] = "file"
+            if case.get("flush"):
+                real_file_case(ctx, {k: v for k, v in case.items() if k not in ("only", "flush")})
+                return
         check_group(ctx, base)
     elif kind == "logging":
         base = {k: v for k, v in case.items() if k not in ("only", "dest")}
